@@ -5,6 +5,22 @@ use adblock::url_parser::parse_url;
 use serde_json::json;
 use std::collections::{HashMap, HashSet};
 
+/// The URL scanner on one ASCII URL against its model (`url` op): scheme, host and the normalised text. For the checks of
+/// other properties whose requests must be read the way the model reads them.
+pub fn emit_url_case(out: &mut Out, url: &str) {
+    let key = format!("url-op:{}", url);
+    if !url.is_ascii() || url.contains('\n') || url.contains('\t') || out.seen_lines.contains(&key) {
+        return;
+    }
+    out.seen_lines.insert(key);
+    let imp = match parse_url(url) {
+        Some(p) => format!("{};{};{}", hex(p.schema()), hex(p.hostname()), hex(&p.url)),
+        None => "NONE".to_string(),
+    };
+    out.bump("request_urls_read_by_the_model");
+    out.case(&format!("url\t{}\t-", hex(url)), &imp, json!({"api": "parse_url", "url": url, "impl": imp.chars().take(120).collect::<String>()}), imp != "NONE");
+}
+
 /// canonical text of a request: `type,http,https,supported,3p,url,hostname,srcHashes,tokens`
 pub fn show_req(q: &Request) -> String {
     let join = |v: &Vec<u64>| v.iter().map(|x| x.to_string()).collect::<Vec<_>>().join(".");
